@@ -11,6 +11,7 @@ CONFIGS = [
     ("blockmap_2k", ["-t", "ext3", "-b", "2048"]),
     ("extent_nocsum_1k", ["-t", "ext4", "-b", "1024", "-O", "^metadata_csum,^64bit"]),
     ("inline_1k", ["-t", "ext4", "-b", "1024", "-O", "inline_data"]),
+    ("bigalloc_1k", ["-t", "ext4", "-b", "1024", "-O", "bigalloc", "-C", "8192"]),
 ]
 
 
@@ -24,6 +25,7 @@ def gen_ops(r, bs, nfiles, nops, inline, inline_sz=False):
     """(harness line, model line or None) pairs; positions around block, 12-block (first indirect) and extent boundaries"""
     ops = []
     pos = {f: 0 for f in range(nfiles)}
+    size = {f: 0 for f in range(nfiles)}
     marks = [0, 1, 59, 60, 61, bs - 1, bs, bs + 1, 2 * bs, 4 * bs - 3, 12 * bs - 1, 12 * bs, 12 * bs + 5, 13 * bs, 20 * bs + 7, 40 * bs]
     limit = 45 * bs if bs <= 2048 else 14 * bs
     for _ in range(nops):
@@ -35,6 +37,7 @@ def gen_ops(r, bs, nfiles, nops, inline, inline_sz=False):
             n = r.choice([1, 2, 7, 60, 61, 100, bs - 1, bs, bs + 1, 2 * bs + 3, 3 * bs]) if r.random() < 0.7 else r.randint(1, 3 * bs)
             data = r.randbytes(n) if r.random() < 0.85 else bytes(n)
             ops.append((["S %d %d" % (f, p), "W %d %s" % (f, data.hex())], "W %d %d %s" % (f, p, data.hex())))
+            size[f] = max(size[f], p + n)
         elif k < 0.7:
             p = r.choice(marks) if r.random() < 0.5 else r.randint(0, limit)
             n = r.choice([1, 60, bs, 2 * bs + 1, 5 * bs])
@@ -42,10 +45,16 @@ def gen_ops(r, bs, nfiles, nops, inline, inline_sz=False):
         elif k < 0.8 and not (inline and not inline_sz):
             s = r.choice(marks + [limit // 2]) if r.random() < 0.7 else r.randint(0, limit)
             ops.append((["SZ %d %d" % (f, s)], "Z %d %d" % (f, s)))
+            size[f] = s
         elif k < 0.88 and not inline:
             a = r.randint(0, limit // bs)
             b = a + r.choice([0, 0, 1, 2, 4, 11, 30])
             ops.append((["FL %d" % f, "P @%d %d %d" % (f, a, b), "REOPEN %d" % f], "P %d %d %d" % (f, a, b)))
+        elif k < 0.91 and not inline and size[f] >= 2 * bs:
+            # preallocation inside the file: content must not change (holes keep reading as zeros, data stays)
+            a = r.randint(0, size[f] // bs - 1)
+            b = min(size[f] // bs - 1, a + r.choice([0, 1, 2, 5, 9, 17]))
+            ops.append((["FL %d" % f, "FA @%d %d %d" % (f, a, b), "REOPEN %d" % f], None))
         elif k < 0.94:
             ops.append((["FL %d" % f], None))
         else:
@@ -66,6 +75,8 @@ def mkops(seq):
             out.append((["SZ %d %d" % (t[1], t[2])], "Z %d %d" % (t[1], t[2])))
         elif t[0] == "P":
             out.append((["FL %d" % t[1], "P @%d %d %d" % (t[1], t[2], t[3]), "REOPEN %d" % t[1]], "P %d %d %d" % (t[1], t[2], t[3])))
+        elif t[0] == "F":
+            out.append((["FL %d" % t[1], "FA @%d %d %d" % (t[1], t[2], t[3]), "REOPEN %d" % t[1]], None))
     return out
 
 
@@ -80,15 +91,19 @@ def corpus(bs):
         [("W", 1, 19 * bs + 400, 500, 0xE5), ("P", 1, 8, 19)],                                                 # punch from the direct into the indirect range
         [("W", 0, 0, 30 * bs, 0x77), ("P", 0, 10, 13), ("R", 0, 9 * bs, 6 * bs)],
         [("W", 0, 0, 30 * bs, 0x78), ("P", 0, 5, 20), ("R", 0, 4 * bs, 18 * bs)],
+        # preallocation right behind data that ends inside a cluster, next to another file's cluster; and over a punched hole
+        [("W", 1, 0, 8 * bs, 0x61), ("W", 0, 0, 3 * bs, 0x62), ("Z", 0, 24 * bs), ("F", 0, 3, 12), ("R", 0, 0, 24 * bs), ("R", 1, 0, 8 * bs)],
+        [("W", 0, 0, 5 * bs + 7, 0x63), ("Z", 0, 40 * bs), ("F", 0, 6, 30), ("W", 0, 20 * bs, 10, 0x64), ("R", 0, 0, 40 * bs)],
+        [("W", 0, 0, 30 * bs, 0x65), ("P", 0, 4, 9), ("F", 0, 2, 11), ("R", 0, 0, 30 * bs)],
         [("W", 0, 0, 30 * bs, 0x79), ("P", 0, 0, 20)], [("W", 0, 0, 30 * bs, 0x7A), ("P", 0, 12, 12)], [("W", 0, 0, 30 * bs, 0x7B), ("P", 0, 11, 12)],
     ]
 
 
 def corpus_case(src, hexe, mexe, k):
-    cfgs = [CONFIGS[2], CONFIGS[0], CONFIGS[1]]
-    name, opts = cfgs[k % 3]
+    cfgs = [CONFIGS[2], CONFIGS[0], CONFIGS[1], CONFIGS[6]]
+    name, opts = cfgs[k % 4]
     bs = int(opts[opts.index("-b") + 1])
-    seq = corpus(bs)[k // 3]
+    seq = corpus(bs)[k // 4]
     return execute(src, hexe, mexe, name, opts, mkops(seq), 7000 + k)
 
 
@@ -136,6 +151,7 @@ def execute(src, hexe, mexe, name, opts, ops, idx):
     cur = {f: 0 for f in range(nfiles)}
     rsize = {f: 0 for f in range(nfiles)}
     expect = []     # (index in harness output, kind)
+    has_fa = False  # preallocations are outside the buffer model: the mapped-block tie is skipped for such histories
     for f in range(nfiles):
         hl.append("FO %d @INO%d" % (f, f))
     for hls, mline in ops:
@@ -144,9 +160,10 @@ def execute(src, hexe, mexe, name, opts, ops, idx):
                 f = int(h.split()[1])
                 hl.append("FC %d" % f)
                 hl.append("FO %d @INO%d" % (f, f))
-            elif h.startswith("P @"):
-                _, ff, a, b = h.split()
-                hl.append("P @INO%s %s %s" % (ff[1:], a, b))
+            elif h.startswith("P @") or h.startswith("FA @"):
+                c_, ff, a, b = h.split()
+                hl.append("%s @INO%s %s %s" % (c_, ff[1:], a, b))
+                has_fa = has_fa or c_ == "FA"
             else:
                 hl.append(h)
         if mline:
@@ -198,7 +215,7 @@ def execute(src, hexe, mexe, name, opts, ops, idx):
     hout = p.stdout.decode().split("\n")
     mout = subprocess.run([mexe], input=("\n".join(ml) + "\n").encode(), stdout=subprocess.PIPE, timeout=900).stdout.decode().split("\n")
     bexe = os.path.join(os.path.dirname(os.path.dirname(mexe)), "filebuf", "filebuf.exe")
-    bout = subprocess.run([bexe], input=("\n".join(bl) + "\n").encode(), stdout=subprocess.PIPE, timeout=900).stdout.decode().split("\n") if (not inline and (idx >= 7000 or idx % 4 == 0)) else []
+    bout = subprocess.run([bexe], input=("\n".join(bl) + "\n").encode(), stdout=subprocess.PIPE, timeout=900).stdout.decode().split("\n") if (not inline and not has_fa and (idx >= 7000 or idx % 4 == 0)) else []
     problems = []
     recipe = {"config": name, "mke2fs": opts, "ops": [m for _, m in ops if m][:60], "all_ops": [[h, m] for h, m in ops], "case_index": idx}
     if p.returncode != 0:
@@ -353,7 +370,7 @@ def run(res, replay=None):
     with concurrent.futures.ThreadPoolExecutor(12) as ex:
         outs = list(ex.map(lambda i: one_case(src, hexe, mexe, i, seed, tier), idxs))
         if not replay:
-            outs = list(ex.map(lambda k: corpus_case(src, hexe, mexe, k), range(3 * len(corpus(1024))))) + outs
+            outs = list(ex.map(lambda k: corpus_case(src, hexe, mexe, k), range(4 * len(corpus(1024))))) + outs
             outs += list(ex.map(lambda i: large_case(src, hexe, i, seed), range(9 if tier == "quick" else 600)))
     bad = []
     reads = ops = 0
